@@ -983,6 +983,49 @@ func oracleKinds(h *rt.H, s *state, ops []string) {
 			}
 		}
 	}
+	// the positive half: a block of the LOCAL node (not a single address) inside exactly one pool of the
+	// manager's type has a blackhole route
+	for _, bk := range sortedCidrs(t.blocks) {
+		b := t.blocks[bk]
+		if bk.v6 || b.aff != s.me || bk.l == 32 {
+			continue
+		}
+		var pools []poolSpec
+		for pk, p := range t.pools {
+			if !pk.v6 && pk.l <= bk.l && overlaps(pk, bk) {
+				pools = append(pools, p)
+			}
+		}
+		overlap := false
+		for ok := range t.blocks {
+			if ok != bk && overlaps(ok, bk) {
+				overlap = true
+			}
+		}
+		if len(pools) != 1 || overlap || pools[0].lb {
+			continue
+		}
+		ptype := 1
+		if pools[0].vxlanMode != 0 {
+			ptype = 2
+		} else if pools[0].ipipMode != 0 {
+			ptype = 3
+		}
+		if ptype != s.pt {
+			continue
+		}
+		found := false
+		for _, g := range byDst[bk.tok()] {
+			if strings.Contains(g, "|bh|") {
+				found = true
+			}
+		}
+		if !found {
+			h.OracleFail("blackhole-missing", "local block without a blackhole route", map[string]any{"ops": ops, "dst": bk.tok(), "got": byDst[bk.tok()]})
+		} else {
+			h.Count("obs:local-block-blackholed")
+		}
+	}
 	// no blackhole has the destination of a local workload's own /32
 	for k, ips := range t.weps {
 		if k[0] != s.me {
